@@ -65,8 +65,11 @@ def program_for(bp, decl, seed, horizon=HORIZON, with_ic=None):
         prev_cur = c['cur']
     params = {}
     for i, d in enumerate(secs, 1):
+        # every random draw is made here, in canonical sector order, so that the parameters of a blueprint do not
+        # depend on the declaration order being replayed
         params[i] = {'alpha_income': _dec(rnd, 0.5, 0.9), 'alpha_fin': _dec(rnd, 0.1, 0.5),
-                     'margin': rnd.choice([0.1, 0.2, 0.25]), 'taxrate': _dec(rnd, 0.1, 0.3)}
+                     'margin': rnd.choice([0.1, 0.2, 0.25]), 'taxrate': _dec(rnd, 0.1, 0.3),
+                     'wgt': _dec(rnd, 0.2, 0.7), 'gift': _dec(rnd, 0.01, 0.09)}
     declared = set()
     pending_tre = []
     for s in decl:
@@ -97,12 +100,12 @@ def program_for(bp, decl, seed, horizon=HORIZON, with_ic=None):
             prog.append({'op': 'AddVariable', 'sector': ref(s), 'name': x, 'desc': 'extra demand', 'eqn': '0.0'})
         if d['aw']:
             prog.append({'op': 'AssetWeighting', 'sector': ref(s),
-                         'weights': [['DEP', '%0.2f' % _dec(rnd, 0.2, 0.7)]], 'residual': 'MON'})
+                         'weights': [['DEP', '%0.2f' % params[s]['wgt']]], 'residual': 'MON'})
         if d['gift']:
             # the name of the sector's own lagged wealth is requested before full codes exist: a placeholder
             # embedded in a sector equation (C05)
             prog.append({'op': 'AddVariable', 'sector': ref(s), 'name': 'GIFT', 'desc': 'gift',
-                         'eqn': '%0.2f*{%s:LAG_F}' % (_dec(rnd, 0.01, 0.09), ref(s))})
+                         'eqn': '%0.2f*{%s:LAG_F}' % (params[s]['gift'], ref(s))})
         if k == 'CentralBank' and d['tre'] and not d['trector']:
             pending_tre.append(s)
         for cb in list(pending_tre):
